@@ -1073,9 +1073,11 @@ class Executor:
             self.oblige(st, 'safe:none', name, z3.BoolVal(False), node,
                         note=f'attribute {name} of None')
             return v_any(fresh_val(name))
+        tguard = None
         if k == 'opt':
             self.oblige(st, 'safe:none', name, z3.Not(Val.is_none(obj.t)), node,
                         note=f'attribute {name} of an optional value')
+            tguard = z3.Not(Val.is_none(obj.t))     # inside a specification nothing obliges the receiver to exist
             obj = V(obj.t, obj.ty.args[0], items=obj.items)
             k = obj.kind
         if k in ('list', 'dict', 'set', 'str', 'tuple', 'mat', 'vec', 'int', 'real', 'bool'):
@@ -1111,7 +1113,7 @@ class Executor:
                                 return self.ev(st, c.class_attrs[name])
                             finally:
                                 self.frames.pop()
-            st.assume_type(v)
+            st.assume_type(v, guard=tguard)
             if v.kind == 'dict' or (v.kind == 'opt' and v.ty.args[0].kind == 'dict'):
                 # representation invariant of every Python dict (keys enumerate the domain once)
                 dv = v if v.kind == 'dict' else V(v.t, v.ty.args[0])
